@@ -5,7 +5,7 @@
 # On success copies patch + demo + meta.json to /verif/seeded/<Cnn>-<A|B>/.
 set -u
 ID="$1"; V="$2"
-SRC=/tmp/seed/$ID/OUT/$V
+SRC=${SEED_SRC:-/tmp/seed}/$ID/OUT/$V
 WT=/tmp/vs/$ID$V
 LOG=/tmp/vs/$ID$V.log
 mkdir -p /tmp/vs
@@ -15,7 +15,7 @@ rm -rf "$WT"; git -C /repo worktree prune
 git -C /repo worktree add --detach "$WT" HEAD > "$LOG" 2>&1 || { echo "$ID$V: cannot create worktree"; exit 1; }
 cleanup() { git -C /repo worktree remove --force "$WT" >/dev/null 2>&1; rm -rf "$CARGO_TARGET_DIR"; }
 trap cleanup EXIT
-cd "$WT"
+cd "$WT"; mkdir -p "$WT/target"
 # The demo may build into its own target dir; point it at ours.
 run_demo() { ( cd "$SRC" && timeout 1500 bash ./demo.sh "$WT" ) >> "$LOG" 2>&1; }
 echo "--- demo without patch" >> "$LOG"
